@@ -49,6 +49,7 @@ TABLE = [
     ("node labels in expansion-depthing mode look up the abstract class itself", "C11", "with expansion_depthing=True a field declared Annotated[<abstract class>, <refinement>] (the shape of the dependent-types test grammar) got node labels inflated by 1000000 per field (defaultdict miss on the Annotated alias, which also grew grammar.abstract_dist_to_t), and a decorator-abstract class inside Annotated was not recognised as abstract at all"),
     ("CooperativeGP builds its default representations", "C01", "CooperativeGP(g1, g2, f) with the documented default random=None built its default representations around MaxDepthDecider(None, ..): the first creation died with AttributeError (a foreign exception)"),
     ("return a best individual for multi-objective problems instead of None", "C12", "RandomSearch, HC and OnePlusOne returned None for a multi-objective problem (the multi-objective tracker had no get_best_individual)"),
+    ("writes the normalised weight back to abstract layers", "C19", "a nested abstract class that is not listed among the considered subtypes never got its normalised weight written back: its rule did not sum to one and the weights of its siblings drifted at every re-extraction (0.5, 0.33, ...)"),
 ]
 
 log = subprocess.check_output(["git", "-C", "/repo", "log", "--format=%h %s"]).decode().splitlines()
